@@ -85,6 +85,9 @@ class RefAgent:
         self.set_normalise: Optional[Callable[[tuple, S.Value], S.Value]] = None
         self.require_exact_level = True
         self.max_bulk_bindings = 400
+        #: conformant choice (RFC 3412 7.1 step 3): a Report's scoped PDU carries either this engine's id or the
+        #: contextEngineID / contextName of the request it answers (empty for a discovery probe)
+        self.report_ctx_echo = False
 
     # -- MIB ----------------------------------------------------------------------
     def set_mib(self, mib: Dict[tuple, S.Value]) -> None:
@@ -255,8 +258,11 @@ class RefAgent:
         if not msg["flags"] & 4:
             return []
         pdu = S.mkpdu(S.PDU_REPORT, rid, [(stat_oid, ("c32", self.stats[counter]))])
+        ctx_engine, ctx_name = self.engine_id, b""
+        if self.report_ctx_echo and msg.get("scoped") is not None:
+            ctx_engine, ctx_name = msg["scoped"]["ctx_engine"], msg["scoped"]["ctx_name"]
         fields = {"msg_id": msg["msg_id"], "flags": level, "user": user.name if user else b"",
-                  "ctx_engine": self.engine_id, "ctx_name": b"", "pdu": pdu,
+                  "ctx_engine": ctx_engine, "ctx_name": ctx_name, "pdu": pdu,
                   "engine_id": self.engine_id, "boots": self.boots, "time": self.engine_time(now)}
         req["report"] = True
         return [(self.delay_for(req), self.build_v3(req, fields, user, now))]
